@@ -1042,6 +1042,8 @@ def restricted_leaf_exhaustive(thorough):
                 elif float(x).is_integer() and abs(x) < 2 ** 53:
                     vals.append(int(x))
             vals += [True, None, "abc", "", {"f": "nan"}, {"f": "inf"}, {"f": "-inf"}, {"f": "0.5"}, "0x10", "1_0", " 3 ", [1]]
+            if base is float:    # ints beyond the float range: an ordinary refusal since /repo 4c191c6 (the model: `toFlt` = none)
+                vals += [10 ** 310, -(10 ** 309), "1e400"]
             if base is int:      # floats that are not integers (numbers and text), integral floats as text
                 vals += [{"f": "2.5"}, {"f": "7.5"}, {"f": "-3.5"}, {"f": "9.99"}, {"f": "1e-07"}, "2.5", "7.0", "1e1"]
         seen = set()
@@ -1480,7 +1482,6 @@ def run(ctx: Ctx):
         "specification (regular expression via CPython's re._parser into the model's Re with the meaning of regex.match; comparisons on exact "
         "decimals) - never by asking the class; ASCII subjects; floats compare like the decimals of their repr (exact for two floats); float "
         "references and int values of magnitude < 2^53; int(str)/float(str)/str() are oracles (Python builtins)",
-        "an int beyond the float range given to a restricted FLOAT type outside a Union raises OverflowError (not an ArgumentError; C03's subject): not generated",
         "arguments with a default: a fixed family (conforming and sentinel defaults; values equal to the default by == but of another kind) "
         "through parse_object / config text / argv, against the model's `checkTypeD` (the default early-out of adapt_typehints)",
         "otherwise one optional argument without nargs/default/enable_path; parser_mode yaml; values inside the wire grammar (str/int dict keys, |int| < 10^400)",
